@@ -108,37 +108,85 @@ MATERIALIZERS = {
 PRELUDE = K.PRELUDE + "import pyarrow as pa\nimport narwhals.stable.v1 as nw\n"
 
 
-def data_code(dt, mat):
+# null variants (text / categorical dtypes only): which cells are null
+#   "none"   : no nulls
+#   "w-null" : the helper column w is null on rows 2 and 4 -- the ONLY rows of level 'a' (text) / 2 (int
+#              categories): once those rows are dropped (default policy) that level has no rows left
+#   "v-null" : the column itself is null on rows 1 and 5 -- the only rows of 'c' / 1, the first declared level
+VARIANTS = ("none", "w-null", "v-null")
+NULL_ROWS = {"none": ((), ()), "w-null": ((), (2, 4)), "v-null": ((1, 5), ())}
+
+
+def variant_values(dt, variant):
+    values = list(dt[4])
+    v_null, w_null = NULL_ROWS[variant]
+    v = [None if i in v_null else x for i, x in enumerate(values)]
+    w = [None if i in w_null else x for i, x in enumerate(W)]
+    return v, w
+
+
+def _sub(src, old, new):
+    assert src.count(old) == 1, (src, old)
+    return src.replace(old, new)
+
+
+def data_code(dt, mat, variant="none"):
     name, group, pd_src, pa_src, values, levels = dt
-    src = f"W = {W!r}\n"
+    v, w = variant_values(dt, variant)
+    src = f"W = {w!r}\n"
     if mat == "narwhals(pyarrow)":
+        if variant == "v-null":
+            if "DictionaryArray" in pa_src:
+                codes = [levels.index(x) for x in values]
+                pa_src = _sub(pa_src, repr(codes), repr([None if x is None else levels.index(x) for x in v]))
+            else:
+                pa_src = _sub(pa_src, repr(values), repr(v))
         src += f"V_PA = {pa_src}\ndata = {MATERIALIZERS[mat][0]}\n"
     else:
+        if variant == "v-null":
+            pd_src = _sub(pd_src, repr(values), repr(v))
         src += f"df = pd.DataFrame({{'v': {pd_src}, 'w': pd.Series(W, dtype='float64')}})\ndata = {MATERIALIZERS[mat][0]}\n"
     return src
 
 
-def expected(dt, formula):
-    """Expected dense matrix from the raw values (None for bool: only cells are checked)."""
+def expected(dt, formula, variant="none"):
+    """Candidate expected dense matrices built from the raw values (None for bool: only cells are checked).
+    More than one candidate only for text columns with dropped rows: the statement does not say whether the
+    sorted level set is taken before or after the null rows are dropped, so both are accepted.  For a
+    categorical dtype the declared levels are the levels, whichever rows are dropped."""
     name, group, pd_src, pa_src, values, levels = dt
-    w = np.array(W)
-    one = np.ones(len(W))
+    v, wv = variant_values(dt, variant)
+    uses_w = "w" in formula
+    keep = [i for i in range(len(v)) if v[i] is not None and not (uses_w and wv[i] is None)]
+    vals = [v[i] for i in keep]
+    w = np.array([wv[i] if wv[i] is not None else np.nan for i in keep], dtype=float)
+    one = np.ones(len(keep))
     if group == "bool":
         return None
     if group == "num":
-        v = np.array(values, dtype=float)
-        return {"0 + v": [v], "v": [one, v], "0 + v:w": [v * w], "v + w + v:w": [one, v, w, v * w]}[formula]
-    ind = [np.array([1.0 if x == lv else 0.0 for x in values]) for lv in levels]
-    if formula in ("0 + v", "0 + C(v)"):
-        return ind
-    if formula in ("v", "C(v)", "C(v, contr.treatment)"):
-        return [one] + ind[1:]
-    if formula in ("0 + v:w", "0 + C(v):w"):
-        return [i * w for i in ind]
-    if formula == "C(v, contr.sum)":
-        # sum (deviation) coding, contrasts guide: one column per level but the last; rows of the last level are -1
-        return [one] + [i - ind[-1] for i in ind[:-1]]
-    return [one] + ind[1:] + [w] + [i * w for i in ind[1:]]
+        x = np.array(vals, dtype=float)
+        return [{"0 + v": [x], "v": [one, x], "0 + v:w": [x * w], "v + w + v:w": [one, x, w, x * w]}[formula]]
+    if group == "cat":
+        level_sets = [list(levels)]
+    else:
+        level_sets = [sorted({x for x in v if x is not None})]
+        if sorted(set(vals)) not in level_sets:
+            level_sets.append(sorted(set(vals)))
+    out = []
+    for lv_set in level_sets:
+        ind = [np.array([1.0 if x == lv else 0.0 for x in vals]) for lv in lv_set]
+        if formula in ("0 + v", "0 + C(v)"):
+            out.append(ind)
+        elif formula in ("v", "C(v)", "C(v, contr.treatment)"):
+            out.append([one] + ind[1:])
+        elif formula in ("0 + v:w", "0 + C(v):w"):
+            out.append([i * w for i in ind])
+        elif formula == "C(v, contr.sum)":
+            # sum (deviation) coding, contrasts guide: one column per level but the last; rows of the last level are -1
+            out.append([one] + [i - ind[-1] for i in ind[:-1]])
+        else:
+            out.append([one] + ind[1:] + [w] + [i * w for i in ind[1:]])
+    return out
 
 
 def to_cells(m):
@@ -186,6 +234,8 @@ def run_bounded(ctx):
         "A-C08-unobserved: a declared category that never occurs keeps its declared position as an all-zero indicator (as the "
         "missing-data guide shows for `C[T.d]`); lowercase ASCII text, so 'sorted' is unambiguous",
         "A-C08-sum-coding: `C(v, contr.sum)` = intercept + one column per level but the last, rows of the last level -1 (contrasts guide)",
+        "A-C08-nulls: with rows dropped for nulls a categorical dtype keeps every declared level (all-zero column for a level "
+        "without retained rows); for text both 'sorted distinct values of all rows' and '... of the retained rows' are accepted",
         "A-C08-float: pass-through columns compared exactly after conversion to float64, products to rtol=1e-6 (float32 inputs)",
     )
     import pyarrow as pa  # noqa: F401  (fail loudly if the environment lacks it)
@@ -197,7 +247,8 @@ def run_bounded(ctx):
         "category ordered/unordered with str/int categories in non-sorted declared order and with an unobserved declared level, int8-64, uint8-64, float32/64, bool, "
         "nullable Int64/Float64/boolean"
         + (", further nullable widths, arrow-backed int64/double" if ctx.thorough else "")
-        + f") x formulas {list(FORMULAS)} (text / categorical dtypes also {list(C_FORMULAS)}) x materializers (pandas; narwhals on pandas; narwhals on a pyarrow Table where the "
+        + f") x formulas {list(FORMULAS)} (text / categorical dtypes also {list(C_FORMULAS)}, and each of those with no nulls / the helper column null on the only "
+        "rows of one level / the column itself null on the only rows of its first declared level, default drop policy) x materializers (pandas; narwhals on pandas; narwhals on a pyarrow Table where the "
         "dtype exists) x every output type of the materializer; all cases are non-trivial",
         exhaustive=True,
         bound="the listed dtype set; one fixed 6-row value vector per dtype group",
@@ -209,10 +260,14 @@ def run_bounded(ctx):
                 if mat == "narwhals(pyarrow)" and pa_src is None:
                     continue
                 for formula in FORMULAS + (C_FORMULAS if group in ("text", "cat") else ()):
-                    for out in outputs:
-                        key = (name, mat, formula, out)
-                        b.case(key, nontrivial=True, sample={"dtype": name, "materializer": mat, "formula": formula, "output": out})
-                        _one(rep, dt, mat, formula, out)
+                    for variant in (VARIANTS if group in ("text", "cat") else ("none",)):
+                        if variant == "w-null" and "w" not in formula:
+                            continue  # w is not an evaluated factor of this formula: same as "none"
+                        for out in outputs:
+                            key = (name, mat, formula, variant, out)
+                            b.case(key, nontrivial=True, sample={"dtype": name, "materializer": mat, "formula": formula,
+                                                                 "nulls": variant, "output": out})
+                            _one(rep, dt, mat, formula, out, variant)
         rep.note()
 
     with ctx.bounded(
@@ -273,29 +328,30 @@ def cells(m):
 c = cells(res)
 for x in c.ravel():
     assert not isinstance(x, (str, bytes)) and x is not None and isinstance(x, (numbers.Number, np.number, np.bool_)), ("non-numeric cell", x)
-if EXPECTED is not None:
-    exp = np.array(EXPECTED, dtype=float).T
-    assert c.shape == exp.shape, ("shape", c.shape, "expected", exp.shape, list(res.model_spec.column_names))
-    assert np.allclose(c.astype(float), exp, rtol=RTOL, atol=0), (c.astype(float).tolist(), "expected", exp.tolist())
+if EXPECTED_ANY is not None:
+    def matches(e):
+        exp = np.array(e, dtype=float).T.reshape(-1, len(e))
+        return c.shape == exp.shape and np.allclose(c.astype(float), exp, rtol=RTOL, atol=0)
+    assert any(matches(e) for e in EXPECTED_ANY), (list(res.model_spec.column_names), c.astype(float).tolist(), "expected one of", EXPECTED_ANY)
 '''
 
 
-def _one(rep, dt, mat, formula, out):
+def _one(rep, dt, mat, formula, out, variant="none"):
     from formulaic import model_matrix
 
     name, group, pd_src, pa_src, values, levels = dt
-    src = PRELUDE + data_code(dt, mat)
+    src = PRELUDE + data_code(dt, mat, variant)
     env = {}
     with warnings.catch_warnings():
         warnings.simplefilter("ignore")
         exec(src, env)
         data = env["data"]
-        exp = expected(dt, formula)
+        exps = expected(dt, formula, variant)
         rtol = 0.0 if formula in ("0 + v", "v") else 1e-6
         code = (src + f"res = model_matrix({formula!r}, data, output={out!r})\n"
-                + f"EXPECTED = {None if exp is None else [e.tolist() for e in exp]!r}\nRTOL = {rtol}\n" + _CHECK_SRC)
-        cls = f"{name} | {mat}" + (" | via C()" if "C(" in formula else "")
-        wit = {"dtype": name, "materializer": mat, "formula": formula, "output": out, "code": code}
+                + f"EXPECTED_ANY = {None if exps is None else [[c.tolist() for c in e] for e in exps]!r}\nRTOL = {rtol}\n" + _CHECK_SRC)
+        cls = f"{name} | {mat}" + (" | via C()" if "C(" in formula else "") + ("" if variant == "none" else " | rows dropped for nulls")
+        wit = {"dtype": name, "materializer": mat, "formula": formula, "nulls": variant, "output": out, "code": code}
         try:
             res = model_matrix(formula, data, output=out)
         except Exception as e:
@@ -306,16 +362,19 @@ def _one(rep, dt, mat, formula, out):
         if not ok:
             rep.fail("C08.cells.numeric", cls, wit, f"cell {bad} in output {out!r}; columns {list(res.model_spec.column_names)}")
             return
-        if exp is None:
+        if exps is None:
             return
-        E = np.array(exp, dtype=float).T
         clause = {"text": "C08.text.sorted-indicators", "cat": "C08.categorical.declared-order-indicators",
                   "num": "C08.numeric.pass-through"}[group]
-        if cells.shape != E.shape:
-            rep.fail(clause, cls + " | shape", wit, f"shape {cells.shape} expected {E.shape}; columns {list(res.model_spec.column_names)}")
+        Es = [np.array(e, dtype=float).T.reshape(-1, len(e)) for e in exps]
+        shaped = [E for E in Es if E.shape == cells.shape]
+        if not shaped:
+            rep.fail(clause, cls + " | shape", wit,
+                     f"shape {cells.shape} expected {[E.shape for E in Es]}; columns {list(res.model_spec.column_names)}")
             return
         got = cells.astype(float)
-        if not np.allclose(got, E, rtol=rtol, atol=0):
+        if not any(np.allclose(got, E, rtol=rtol, atol=0) for E in shaped):
+            E = shaped[0]
             # a permutation of the expected level columns = ordering failure, else value failure
             perm = sorted(map(tuple, got.T.tolist())) == sorted(map(tuple, E.T.tolist()))
             rep.fail(clause, cls, wit,
